@@ -10,6 +10,7 @@ same execution:
            <-> final symbol dump (H1);
   MAP 'line:address' entries <-> traced chunk starts (segment, file, line, load address).
 """
+import collections
 import os
 import re
 
@@ -99,7 +100,7 @@ def parse_listing(text, radix):
                 cur = None
                 groups.append({'bad': raw})
                 continue
-            cur = {'inc': int(inc or 0), 'line': int(line), 'addr': a, 'units': toks, 'raw': raw, 'src': rest[LISTLINESPACE:]}
+            cur = {'inc': int(inc or 0), 'line': int(line), 'addr': a, 'units': toks, 'raw': raw, 'src': rest[LISTLINESPACE:], 'rows': [(a, list(toks))]}
             groups.append(cur)
             continue
         m = CONT_RE.match(raw)
@@ -110,6 +111,7 @@ def parse_listing(text, radix):
                 for t in toks:
                     parse_num(t, radix)
                 cur['units'] += toks
+                cur['rows'].append((parse_num(addr, radix), list(toks)))
             except ValueError:
                 groups.append({'bad': raw})
             continue
@@ -172,6 +174,9 @@ def run_case(case, ctx):
         base = 'g'
     out.sample = {'program': tag, 'share': share[1]}
     args = flags + ['-L', '-g', 'MAP', share[0], '-shareout', base + '.shr']
+    lower = rng.random() < 0.25
+    if lower:
+        args += ['-h']           # hexadecimal digits in lower case: the reports must still state numbers
     if radix != 16:
         args += ['-LISTRADIX', str(radix)]
     a = asl.assemble(ctx, src, args, out=base + '.p', trace=True, timeout=180)
@@ -196,6 +201,23 @@ def run_case(case, ctx):
             syms[e['name']] = int(e['val'], 16)
     # ---- listing groups against the trace
     groups = parse_listing(lst, radix)
+    if complete:
+        # the line numbers themselves (listing, and through the trace the MAP): a statement whose text occurs exactly once in the main source
+        # and exactly once in the listing must be listed under the number of the physical line it stands on
+        norm = lambda t: ' '.join(t.split(';')[0].split())
+        srcl = [norm(x) for x in text.split('\n')]
+        cnt_src = collections.Counter(srcl)
+        cnt_lst = collections.Counter(norm(g.get('src', '')) for g in groups if 'bad' not in g)
+        for g in groups:
+            if 'bad' in g or g['inc'] != 0:
+                continue
+            t = norm(g.get('src', ''))
+            if t and cnt_src.get(t) == 1 and cnt_lst.get(t) == 1:
+                true_line = srcl.index(t) + 1
+                if g['line'] != true_line:
+                    out.violate('listing:line-number-wrong', '%s: statement %r stands on line %d of the source, the listing numbers it %d' % (tag, t, true_line, g['line']))
+                    break
+                out.obs['listing_line_numbers_checked'] += 1
     by_line = {}
     for e in ev:
         by_line.setdefault(int(e['line']), []).append(e)
@@ -235,6 +257,18 @@ def run_case(case, ctx):
                 break
         if hit:
             used.add(id(hit[0]))
+            # every continuation row states the address of its first unit
+            gran_ = max(1, int(hit[0].get('gran', 1)))
+            wmap = {unit_width(radix, n): n for n in (4, 2, 1)}
+            pos = 0
+            for ra, rtoks in g['rows']:
+                if ra != g['addr'] + pos // gran_:
+                    out.violate('listing:continuation-address-wrong', '%s: line %d: the row %s is listed at %#x, its first unit lies at %#x (group starts at %#x)' % (
+                        tag, g['line'], rtoks[:4], ra, g['addr'] + pos // gran_, g['addr']))
+                    break
+                pos += sum(wmap.get(len(t), 1) for t in rtoks)
+            else:
+                out.obs['listing_rows_address_checked'] += len(g['rows'])
             if len(hit[1]) == 1:
                 # the group reads differently in the two byte orders: it tells which one this program's code file uses
                 order_seen.setdefault(hit[1][0], (g['line'], g['addr'], g['units'][:4]))
@@ -362,6 +396,12 @@ def run_case(case, ctx):
         else:
             m = re.match(r'(\S+) (?:equ|EQU|=) (\$[0-9A-Fa-f]+|0x[0-9A-Fa-f]+|[0-9][0-9A-Fa-f]*[hH]|\d+)\s*$', raw)
         if not m:
+            # an Intel-style hexadecimal constant has to begin with a digit: "name equ c000h" names another symbol, not a value
+            m2 = re.match(r'(\S+) (?:equ|EQU|=) ([A-Fa-f][0-9A-Fa-f]*[hH])\s*$', raw) if share[1] == 'asm' else None
+            if m2 and m2.group(1).upper() in syms:
+                out.violate('share:value-is-not-a-number:asm', '%s: share file line %r: %r is a symbol name, not a constant (final value %#x)' % (
+                    tag, raw, m2.group(2), syms[m2.group(1).upper()]))
+                break
             continue
         name, val = m.group(1), m.group(2)
         if name.upper() not in syms:
@@ -399,8 +439,6 @@ def gen_listing_program(rng):
             L.append('%s:\t%s' % (n, nop))
         elif k == 1:
             cnt = rng.randrange(1, 40)
-            if cpu == '68000':
-                cnt += cnt & 1
             L.append('\t%s\t%s' % (bop, ','.join(str(rng.randrange(256)) for _ in range(cnt))))
         elif k == 2:
             L.append('\t%s\t%d' % (wop, rng.randrange(65536)))
@@ -423,7 +461,7 @@ def gen_listing_program(rng):
         elif k == 6:
             n = 'k%d' % i
             names.append(n)
-            L.append('%s\tequ\t%d' % (n, rng.randrange(100000)))
+            L.append('%s\tequ\t%d' % (n, rng.choice([rng.randrange(100000), rng.randrange(0xa000, 0x10000), rng.randrange(0xa0, 0x100), 0xffff, 0xa000])))
         elif k == 7:
             L.append('\trept\t%d' % rng.randrange(1, 4))
             L.append('\t%s' % nop)
@@ -432,5 +470,8 @@ def gen_listing_program(rng):
             L.append('\t%s\t%d' % (rop, 2 * rng.randrange(1, 9)))
     if names:
         L.append('\tshared\t%s' % ','.join(rng.sample(names, min(len(names), 5))))
+    if rng.random() < 0.2:
+        # one very long physical line (longer than any fixed-size read buffer): still ONE line for everything that counts lines
+        L.insert(rng.randrange(2, len(L)), '; ' + 'x' * rng.choice([1020, 1021, 1022, 1023, 1024, 1150, 1151, 1300, 2047, 2048, 5000]))
     inc = '\t%s\n\t%s\t7,8\n' % (nop, bop)
     return '\n'.join(L) + '\n', inc
